@@ -8,6 +8,7 @@ Syntactic variation comes from a "choice stream" (list of ints drawn by Hypothes
 import re
 
 LEGAL = re.compile(r"[A-Za-z][A-Za-z0-9_]{0,254}\Z")
+LEGAL_AMP = re.compile(r"(?:[A-Za-z][A-Za-z0-9_]{0,254}|&[A-Za-z0-9_]{1,255})\Z")
 
 
 class Chooser:
@@ -49,9 +50,19 @@ class Ids:
                 and not force_rename and not re.search(r"_\d+_\Z", name):
             self.used.add(name.lower())
             return name, False
+        style = ch.n(4)
+        if style == 3 and name:
+            # the sanitised form other writers use: illegal characters -> '_', '&' before a non-letter
+            cand = re.sub(r"[^0-9A-Za-z_]", "_", name)
+            if not cand[0].isalpha():
+                cand = "&" + cand
+            if LEGAL_AMP.match(cand) and cand.lower() not in self.used and cand != name \
+                    and not re.search(r"_\d+_\Z", cand):
+                self.used.add(cand.lower())
+                return cand, True
         while True:
             self.k += 1
-            cand = "%s%d" % (["id", "N", "x_"][ch.n(3)], self.k)
+            cand = "%s%d" % (["id", "N", "x_"][style % 3], self.k)
             if cand.lower() not in self.used:
                 self.used.add(cand.lower())
                 return cand, True
